@@ -1,4 +1,4 @@
-from checks import concfam
+from checks import concfam, osfam
 GUARDS = {"NoOverlap", "ContentsKept.gen", "ContentsKept.bytes", "ObsOfLiveBlock", "FreeOfLiveBlock", "CheckAllComplete", "QuiesceNoLive",
           "DirtyAllReleased", "AllReleased", "DestructiveAvoidsLive", "LiveAccessible", "Invariant.Inv", "ZeroOK", "OwnershipQuery"}
 def run(tier, seed):
@@ -15,6 +15,17 @@ def run(tier, seed):
     jobs.append({"prog": "exit", "strategy": "random", "runs": (60, 800), "args": ["--size", "60000", "65536"], "env": rof})
     jobs.append({"prog": "exit", "strategy": "random", "runs": (60, 800), "args": ["--size", "40", "200"], "env": rof})
     jobs.append({"prog": "exit", "strategy": "random", "runs": (40, 600), "args": ["--size", "600000", "1048576"], "env": None})
-    return concfam.run_conc("C09", tier, seed, jobs, GUARDS, step_guards=concfam.STEP_GUARDS, mc=("MiAbandonMC", ("MiAbandon_mc.cfg", "MiAbandon_mc_thorough.cfg")), guided_progs=(),
+    # release of abandoned memory when nobody who touched it is alive any more (producer and consumer threads both exit), also with
+    # forced abandonment (MIMALLOC_TARGET_SEGMENTS_PER_THREAD) and OS-allocated segments: OS-level accounting at quiescence
+    q = tier == "quick"
+    oruns = []
+    for tag, env in (("relay", {}), ("relay.rof", rof), ("relay.tspt", {"MIMALLOC_TARGET_SEGMENTS_PER_THREAD": "2"}),
+                     ("relay.tspt.os", {"MIMALLOC_TARGET_SEGMENTS_PER_THREAD": "2", "MIMALLOC_DISALLOW_ARENA_ALLOC": "1"}), ("relay.os", noarena)):
+        oruns.append({"args": ["--workload", "relay", "--rounds", "3" if q else "6"], "env": dict(env), "tag": tag, "build": "rel"})
+        oruns.append({"args": ["--workload", "mt", "--rounds", "3" if q else "6"], "env": dict(env), "tag": tag.replace("relay", "mt"), "build": "rel" if q else "dbg"})
+    V, ocov = osfam.run_os("C09", tier, seed, oruns, builds=["rel", "dbg"], own_guards={"AllReleased", "DirtyAllReleased", "NoCreepMapped", "QuiesceNoLive", "NoOverlap", "ContentsKept.gen", "ContentsKept.bytes",
+                           "DestructiveAvoidsLive", "LiveAccessible", "Invariant.Inv"}, crash_decisive=True, group=2, finish=False, outname="C09os")
+    return concfam.run_conc("C09", tier, seed, jobs, GUARDS, step_guards=concfam.STEP_GUARDS, V=V,
+                            extra_cov={"release_at_quiescence": {k: ocov[k] for k in ("traces_validated_against_impl", "trace_events_validated", "os_events", "runs_sample")}}, mc=("MiAbandonMC", ("MiAbandon_mc.cfg", "MiAbandon_mc_thorough.cfg")), guided_progs=(),
                             assumptions=["the abandonment model has 3 threads in 2 sub-processes and 2 segments; reclaim-on-free on (a second configuration with it off is part of the thorough run)",
                                          "at the end every non-main thread is done, everything is freed and the main thread force-collects: every unit written through a block must have been purged or unmapped"])
